@@ -49,6 +49,8 @@ func Do(p Params) *Result {
 
 	extErrs, parseFinishFn := handleExtensionsParseDidStart(&p)
 	if len(extErrs) != 0 {
+		// finish the phase for the extensions whose start hook did run
+		extErrs = append(extErrs, parseFinishFn(extErrs[0])...)
 		return &Result{
 			Errors: extErrs,
 		}
@@ -78,6 +80,8 @@ func Do(p Params) *Result {
 	// notify extensions about the start of the validation
 	extErrs, validationFinishFn := handleExtensionsValidationDidStart(&p)
 	if len(extErrs) != 0 {
+		// finish the phase for the extensions whose start hook did run
+		extErrs = append(extErrs, validationFinishFn(extErrs)...)
 		return &Result{
 			Errors: extErrs,
 		}
